@@ -920,3 +920,72 @@ Proof.
           OSetWindow 2; OSetWindow 5].
   vm_compute. discriminate.
 Qed.
+
+Local Open Scope R_scope.
+(* end to end: a windowed extract on a reachable state, row by row *)
+Lemma extract_windowed_rows lin circ (ops : list (op ROps)) (o : op ROps) v e :
+  let st := run ROps lin circ (est_init ROps) ops in
+  match o with OExtract2 _ _ | OExtract5 _ _ _ _ _ => True | _ => False end ->
+  meth_win (meth st) = Some v -> pushed ROps lin circ st o = Some e ->
+  let r := step ROps lin circ st o in
+  let H := buf (hb (fst r)) in
+  let n := length H in
+  let W := map exp (win_weights ROps v n) in
+  fst (snd r) = true /\
+  H = firstn (window (hb st)) (e :: buf (hb st)) /\
+  n = Nat.min (Datatypes.S (length (buf (hb st)))) (window (hb st)) /\ (1 <= n)%nat /\
+  weights_ok n W /\
+  (v = Wsimple -> forall i, (i < n)%nat -> nth i W 0 = / INR n) /\
+  (forall k, (k < lin)%nat -> nth k (snd (snd r)) 0 = rdot (prow ROps k H) W) /\
+  (forall k, (lin <= k < lin + circ)%nat ->
+     nth k (snd (snd r)) 0 = if Nat.eqb n 1 then nth k (nth 0 H []) 0
+                             else atan2 (rdot (map sin (prow ROps k H)) W) (rdot (map cos (prow ROps k H)) W)).
+Proof.
+  intros st Ho Hv He r H n W.
+  pose proof (reachable_inv ROps lin circ ops) as Hi. fold st in Hi.
+  pose proof (extract_value ROps lin circ st o Hi Ho) as X. cbv zeta in X. fold r in X.
+  rewrite Hv, He in X. destruct X as (X1 & X2 & X3). destruct Hi as (Hh & _).
+  assert (HH : H = firstn (window (hb st)) (e :: buf (hb st))) by (unfold H; rewrite X2; now apply add_buf).
+  assert (Hn : n = Nat.min (Datatypes.S (length (buf (hb st)))) (window (hb st)))
+    by (unfold n, H; rewrite X2; now apply add_length).
+  assert (Hn1 : (1 <= n)%nat) by (destruct Hh; lia).
+  split; [exact X1|]. split; [exact HH|]. split; [exact Hn|]. split; [exact Hn1|].
+  split; [now apply win_weights_ok|]. split; [intros -> i Hlt; now apply sm_ok|].
+  fold H in X3. fold n in X3. rewrite X3. split.
+  - intros k Hk. apply mean_linear. exact Hk.
+  - intros k Hk. apply mean_circular. exact Hk.
+Qed.
+
+(* sum_{k<n} (n-k) = n(n+1)/2: the weighted variant gives 2(n-i)/(n(n+1)) *)
+Lemma rsum_descending n : rsum (map (fun k => INR (n - k)) (seq 0 n)) = INR n * (INR n + 1) / 2.
+Proof.
+  induction n as [|n IH]; [simpl; lra|].
+  rewrite <- cons_seq. cbn [map rsum fold_right]. rewrite <- seq_shift, map_map.
+  replace (map (fun k => INR (Datatypes.S n - Datatypes.S k)) (seq 0 n)) with (map (fun k => INR (n - k)) (seq 0 n))
+    by (apply map_ext; intros; reflexivity).
+  fold (rsum (map (fun k => INR (n - k)) (seq 0 n))). rewrite IH.
+  rewrite Nat.sub_0_r, !S_INR. lra.
+Qed.
+
+Lemma wm_closed_form n i : (1 <= n)%nat -> (i < n)%nat ->
+  nth i (map exp (wm_weights ROps n)) 0 = 2 * INR (n - i) / (INR n * (INR n + 1)).
+Proof.
+  intros Hn Hi. rewrite (proj2 (wm_ok n Hn) i Hi), rsum_descending.
+  assert (0 < INR n) by (apply lt_0_INR; lia). field. lra.
+Qed.
+
+(* setMobileAverageWindowSize on a reachable state *)
+Lemma set_window_spec S lin circ (ops : list (op S)) (w : Z) :
+  let st := run S lin circ (est_init S) ops in
+  let r := set_window S w st in
+  if (0 <? w)%Z then
+    snd r = true /\ window (hb (fst r)) = clamp_window w /\
+    buf (hb (fst r)) = firstn (clamp_window w) (buf (hb st)) /\
+    meth (fst r) = meth st /\ smw (fst r) = smw st /\ wmw (fst r) = wmw st /\ emw (fst r) = emw st
+  else r = (st, false).
+Proof.
+  intros st r. subst r. unfold set_window. destruct (0 <? w)%Z; [|reflexivity].
+  pose proof (proj1 (reachable_inv S lin circ ops)) as Hh. fold st in Hh. cbn [fst snd hb meth smw wmw emw].
+  rewrite <- (set_size_window _ w (hb st) Hh) at 2.
+  repeat split; [now apply set_size_window | now apply set_size_buf].
+Qed.
